@@ -1,12 +1,14 @@
 #!/usr/bin/env python3
-"""archive the round-4 seeds (/tmp/seeds7/<ID>/A with eval.json) as /verif/seeded/<ID>-G and append them to README.md
-(the rows of the earlier rounds come from tools/seed_all.sh and are left as they are)"""
-import glob, json, os, re, shutil
-MISSED = {"C01-G", "C04-G", "C05-G", "C08-G", "C09-G", "C12-G", "C13-G", "C16-G", "C18-G"}
+"""tools/archive_round.py <dir> <letter> <comma-separated ids missed at first>
+archive one round of seeds (<dir>/<ID>/A with eval.json) as /verif/seeded/<ID>-<letter> and append them to README.md
+(the rows of the earlier rounds are left as they are).  Round 4: /tmp/seeds7 G; round 5: /tmp/seeds9 H."""
+import glob, json, os, re, shutil, sys
+SRC, LETTER = sys.argv[1], sys.argv[2]
+MISSED = {x + "-" + LETTER for x in sys.argv[3].split(",") if x}
 rows = []
-for d in sorted(glob.glob("/tmp/seeds7/C*/A")):
+for d in sorted(glob.glob(SRC + "/C*/A")):
     pid = d.split("/")[-2]
-    name = pid + "-G"
+    name = pid + "-" + LETTER
     t = open(os.path.join(d, "eval.json")).read()
     e = json.loads(t[t.index("{"):])
     assert e.get("confirmed"), name
@@ -29,10 +31,8 @@ for d in sorted(glob.glob("/tmp/seeds7/C*/A")):
     rows.append((name, pid, [k for k, v in caught.items() if v["rc"] == 1], name in MISSED, (notes.strip().splitlines() or [""])[0][:110]))
 p = "/verif/seeded/README.md"
 s = open(p).read()
-s = "\n".join(l for l in s.split("\n") if not re.match(r"\| C\d\d-G ", l)).rstrip("\n") + "\n"
+s = "\n".join(l for l in s.split("\n") if not re.match(r"\| C\d\d-" + LETTER + " ", l)).rstrip("\n") + "\n"
 for r in rows:
     s += f"| {r[0]} | {r[1]} | {', '.join(r[2]) or 'NOT DETECTED'} | {'yes' if r[3] else 'no'} | {r[4].replace('|', '/')} |\n"
-s = re.sub(r"Summary: .*", "Summary: 140 seeds (120 from rounds 1-3, 20 from round 4 = suffix -G, one per property); 139 reported by a quick check "
-           "(C12-C by C11 and C12-G by C13: both are invisible to sequential histories of C12's alphabet... see DESIGN.md 7.7, 7.9), 76 of them only after widening; 1 obsolete (C13-B).", s)
 open(p, "w").write(s)
 print(len(rows), "archived")
